@@ -69,9 +69,13 @@ class Contract:
         REGISTRY[qual] = self
 
     # decorators ---------------------------------------------------------------------------------
-    def requires(self, fn=None, *, name=None):
+    def requires(self, fn=None, *, name=None, typing=False):
+        """typing=True: the clause restates the parameter annotations (type invariant of the inputs); it is assumed at
+        entry and NOT turned into an obligation at call sites (annotations are trusted: the repo is mypy --strict)."""
         def deco(f):
-            self.requires_.append(Clause(name or f.__name__, f, "requires"))
+            cl = Clause(name or f.__name__, f, "requires")
+            cl.typing = typing
+            self.requires_.append(cl)
             return f
         return deco(fn) if fn else deco
 
